@@ -1,0 +1,11 @@
+//go:build !verif
+
+// Package verifhook provides named observation points for the external
+// verification harness.  Without the "verif" build tag it does nothing.
+package verifhook
+
+const Enabled = false
+
+func Set(f func(point string, kv ...any)) {}
+
+func At(point string, kv ...any) {}
